@@ -22,7 +22,9 @@
      (outside the cleandoc model), lines that textwrap.fill re-flows without changing the parse;
    - ast.unparse followed by ast.parse is the identity on the emitted tree (R1), and the other bullets of
      props/C02.v unchanged;
-   - finding_class_C02 does not name the trailing-backslash failure (C02_trailing_backslash_unclassified). *)
+   - (the trailing-backslash failure this proof found - finding_class_C02 did not name it - was repaired in /repo,
+     pure_utils.multiline; C02_trailing_backslash_regression is the regression point; the clause of doc_link_ok that
+     excludes such prose is now an over-restriction). *)
 From Coq Require Import List Bool.
 From Coq Require String.
 Import String.StringSyntax.
@@ -84,7 +86,6 @@ Print Assumptions C02_doc_link_nonvacuous.
 (* the side condition is needed: inside guard_C02_ast, outside doc_link_ok, the link fails *)
 Theorem C02_doc_link_witnesses :
   C02DocLink.link_fails true C02DocLink.w_no_terminal = true
-  /\ C02DocLink.link_fails false C02DocLink.w_backslash = true
   /\ C02DocLink.link_fails false C02DocLink.w_tab = true
   /\ C02DocLink.link_fails false C02DocLink.w_token = true
   /\ C02DocLink.link_fails false C02DocLink.w_announces = true
@@ -99,11 +100,12 @@ Theorem C02_doc_link_needs_side_condition :
 Proof. exact C02DocLink.C02_doc_link_needs_side_condition. Qed.
 Print Assumptions C02_doc_link_needs_side_condition.
 
-(* a failure of the real round trip that finding_class_C02 does not name: prose ending in a backslash *)
-Theorem C02_trailing_backslash_unclassified :
+(* regression point of the /repo fix of pure_utils.multiline: prose ending in a backslash is inside the guard, in no
+   finding class, and the docstring link holds there (it used to come back without the backslash) *)
+Theorem C02_trailing_backslash_regression :
   finding_class_C02 (mkO02 false false) C02DocLink.w_backslash = None
   /\ finding_class_C02 (mkO02 true true) C02DocLink.w_backslash = None
   /\ C02_domain C02DocLink.w_backslash = true /\ guard_C02_ast C02DocLink.w_backslash = true
-  /\ doc_link_b 100 false false C02DocLink.w_backslash = false.
-Proof. exact C02DocLink.C02_trailing_backslash_unclassified. Qed.
-Print Assumptions C02_trailing_backslash_unclassified.
+  /\ doc_link_b 100 false false C02DocLink.w_backslash = true.
+Proof. exact C02DocLink.C02_trailing_backslash_regression. Qed.
+Print Assumptions C02_trailing_backslash_regression.
